@@ -168,6 +168,42 @@ func genSQLSessionLate(rng *rand.Rand, c *Case, timeout int64) {
 	c.Stat = append(c.Stat, "sql-level")
 }
 
+// genNaturalIdleOps: Adds, naps and unforced ticker updates. A row that does not raise the largest event time still
+// is an event of the source: a tick right after it must find the source busy however long ago the maximum last moved.
+func genNaturalIdleOps(rng *rand.Rand, c *Case, unit int64) {
+	nextID := 1
+	front := int64(3)
+	add := func(ts int64) {
+		c.Ops = append(c.Ops, []string{"add", strconv.Itoa(nextID), itoa(ts)})
+		nextID++
+	}
+	for i := 0; i < 1+rng.Intn(3); i++ {
+		front += int64(rng.Intn(3))
+		add(tsBase + front*unit + rng.Int63n(unit))
+	}
+	for round := 0; round < 1+rng.Intn(2); round++ {
+		c.Ops = append(c.Ops, []string{"sleep"})
+		switch rng.Intn(3) {
+		case 0: // an event that does not move the maximum, then a tick: busy
+			add(tsBase + (front-int64(rng.Intn(2)))*unit)
+			c.Ops = append(c.Ops, []string{"ntick"})
+		case 1: // a tick after the nap: idle
+			c.Ops = append(c.Ops, []string{"ntick"})
+		default: // an event that moves the maximum, then a tick: busy
+			front += 1
+			add(tsBase + front*unit + 1)
+			c.Ops = append(c.Ops, []string{"ntick"})
+		}
+		c.Ops = append(c.Ops, []string{"deliver"})
+		front += int64(rng.Intn(3))
+		add(tsBase + front*unit + rng.Int63n(unit))
+		if rng.Intn(2) == 0 {
+			c.Ops = append(c.Ops, []string{"ntick"}, []string{"deliver"})
+		}
+	}
+	c.Ops = append(c.Ops, []string{"drain"})
+}
+
 // genIdleOps: rounds of (idle tick, delivery, stale rows, busy tick, a stale row newer than everything seen, delivery)
 func genIdleOps(rng *rand.Rand, c *Case, unit, ooo int64) {
 	nextID := 1
@@ -243,6 +279,13 @@ func (c02) Gen(rng *rand.Rand, tier string, idx int) Case {
 			c.Stat = append(c.Stat, "tumbling")
 		}
 		c.Stat = append(c.Stat, "idle-and-busy-ticks")
+		if rng.Intn(3) == 0 {
+			// nothing forced: IDLETIMEOUT 30 ms, real naps of 45 ms, the watermark's own idle detection decides
+			setCfg(&c, "idle", "30000000")
+			c.Stat = append(c.Stat, "natural-idle-detection")
+			genNaturalIdleOps(rng, &c, size)
+			return c
+		}
 		genIdleOps(rng, &c, size, ooo)
 		return c
 	}
